@@ -90,9 +90,8 @@ APayload = payload_type("payload", is_async=True)
 # PEP 479: a StopIteration leaving a coroutine is turned into RuntimeError by Python itself before cobald sees it
 APayload.contract.raises = {"BaseException": lambda c, exc, **k: c.Not(exc.isa("StopIteration"))}
 
-TaskSet = TAbs("TaskSet", fields={}, events=False)
-TaskSet.methods["discard"] = amethod("set.discard", {"self": TaskSet, "item": ANYT}, emits=lambda c, ctx, self, item: ctx.emit("tasks.discard", self, item), has_events=True)
-TaskSet.methods["add"] = amethod("set.add", {"self": TaskSet, "item": ANYT}, emits=lambda c, ctx, self, item: ctx.emit("tasks.add", self, item), has_events=True)
+from .runtime_lib import ATask
+TaskSet = TSeq(ATask, "set")
 AsyncR = TObj(RUN + "asyncio_runner:AsyncioRunner", asyncio_loop=ALoop, _tasks=TaskSet, _payload_failure=Future, _logger=PyLogger, _stopped=TEvent)
 
 
@@ -113,7 +112,7 @@ class asyncio_monitor:
     result = TAny()
 
     def writes(c, self, payload):
-        return [(self._payload_failure, "is_done"), (self._payload_failure, "stored_exc")]
+        return [(self._payload_failure, "is_done"), (self._payload_failure, "stored_exc"), (self._tasks, "$len"), (self._tasks, "$item")]
 
     def ensures(c, self, payload, result):
         v = Event.e_b(c.event_at(1))
@@ -516,6 +515,9 @@ class asyncio_register:
 class asyncio_setup:
     params = dict(self=AsyncR, payload=APayload)
     has_events = True
+
+    def writes(c, self, payload):
+        return [(self._tasks, "$len"), (self._tasks, "$item")]
 
     def ensures(c, self, payload):
         e0 = c.event_at(0)
@@ -1118,3 +1120,210 @@ class trio_manage:
         return c.And(ev_kind(c, 0, "run_in_executor"), c.Implies(exc.isa("asyncio.CancelledError"), closed_first))
 
     raises = {"BaseException": _r}
+
+
+@contract(RUN + "asyncio_runner:AsyncioRunner.manage_payloads", props=["C01"])
+class asyncio_manage:
+    """K3 (asyncio): the runner's manage task ends exactly as its failure future ends"""
+    params = dict(self=AsyncR)
+    has_events = True
+    result = TAny()
+
+    def writes(c, self):
+        return [(self._payload_failure, "is_done"), (self._payload_failure, "stored_exc"), (self._payload_failure, "stored_res")]
+
+    def ensures(c, self, result):
+        return {"returns-only-on-graceful-close": c.And(flag(self._payload_failure, "is_done"), self._payload_failure.stored_exc == None)}
+
+    raises = {"BaseException": lambda c, self, exc: c.Or(c.And(flag(self._payload_failure, "is_done"), self._payload_failure.stored_exc == exc), exc.isa("asyncio.CancelledError"))}
+
+
+@contract(RUN + "thread_runner:ThreadRunner.aclose", props=["C02"])
+class thread_aclose:
+    """closing the thread runner only resolves its future (so the manage task ends): thread payloads are NOT awaited or joined -
+    still-blocked daemon threads never prevent termination"""
+    params = dict(self=ThreadR)
+    has_events = True
+
+    def writes(c, self):
+        return [(self._payload_failure, "is_done"), (self._payload_failure, "stored_res"), (self._payload_failure, "stored_exc")]
+
+    def ensures(c, self):
+        f0 = c.old(self._payload_failure)
+        stopped = flag(c.old(self._stopped), "isset")
+        return {
+            "no-op-when-stopped-or-already-resolved": c.Implies(c.Or(stopped, flag(f0, "is_done")), c.no_events()),
+            "otherwise-the-manage-task-is-woken-gracefully": c.Implies(c.And(c.Not(stopped), c.Not(flag(f0, "is_done"))),
+                                                                       c.And(c.events_are(c.event("set_result", self._payload_failure, None)), flag(self._payload_failure, "is_done"))),
+        }
+
+
+@contract(RUN + "asyncio_runner:AsyncioRunner.aclose", props=["C02"])
+class asyncio_aclose:
+    """closing the asyncio runner: the manage task is woken, then EVERY task still tracked is cancelled until none is left -
+    a task leaves the set only once it is done; on normal return no tracked task remains and the failure future is resolved"""
+    params = dict(self=AsyncR)
+    has_events = True
+
+    def writes(c, self):
+        return [(self._payload_failure, "is_done"), (self._payload_failure, "stored_res"), (self._payload_failure, "stored_exc"),
+                (self._tasks, "$len"), (self._tasks, "$item")] + [("all", f, lambda x: True) for f in ("supply", "demand", "utilisation", "allocation", "_must_shutdown", "_started", "task_done")]
+
+    def ensures(c, self):
+        early = c.And(flag(c.old(self._stopped), "isset"), c.old(self._tasks).len == 0)
+        return {"no-tracked-task-remains": self._tasks.len == 0,
+                "failure-future-resolved-unless-nothing-to-do": c.Or(early, flag(self._payload_failure, "is_done"))}
+
+    raises = {"asyncio.CancelledError": lambda c, self, exc: True}
+
+    loops = {
+        # while self._tasks:
+        0: Loop(
+            inv=lambda c, L, k: {"same-runner-future-resolved": c.And(c.unchanged(L.self, "_tasks", "_payload_failure", "_stopped"), flag(L.self._payload_failure, "is_done"))},
+            modifies=lambda c, L: [(L.self._tasks, "$len"), (L.self._tasks, "$item"), ("trace",)] + [("all", f, lambda x: True) for f in ("supply", "demand", "utilisation", "allocation", "_must_shutdown", "_started", "task_done")],
+        ),
+        # for task in self._tasks.copy():
+        1: Loop(
+            inv=lambda c, L, i: {"same-runner-future-resolved": c.And(c.unchanged(L.self, "_tasks", "_payload_failure", "_stopped"), flag(L.self._payload_failure, "is_done"))},
+            # the snapshot being iterated is a fresh copy nobody else reaches
+            modifies=lambda c, L: [(L.self._tasks, "$len"), (L.self._tasks, "$item"), ("trace",)],
+            local_types={"task": ATask},
+            step=lambda c, L, L0: {
+                "a-task-that-is-not-done-is-cancelled": c.Implies(c.Not(flag(c.old(L.task), "task_done")), c.events_are(c.event("task.cancel", L.task))),
+                "only-a-done-task-leaves-the-set": c.Implies(flag(c.old(L.task), "task_done"), c.event_at(0) == c.event("tasks.discard", L.self._tasks, L.task)),
+            },
+        ),
+    }
+
+
+def set_objects(c):
+    """ids of `set` objects (the asyncio runner's task set is the only container a runner's aclose/stop modifies)"""
+    cls = c.ctx.rd(c.old_heap, "$cls")
+    cid = c.ctx.E.classes.cid("abs:$set")
+    return lambda x: z3.Select(cls, x) == cid
+
+
+CLOSE_FIELDS = ("is_done", "stored_res", "stored_exc", "closed", "task_done")
+
+
+def close_frame(c):
+    return [("all", f, lambda x: True) for f in CLOSE_FIELDS] + [("all", f, set_objects(c)) for f in ("$len", "$item")]
+
+
+@contract(RUN + "base_runner:BaseRunner.aclose", props=["C02"], skip_body=True, kind="abstract")
+class base_aclose_iface:
+    """interface of runner.aclose() (verified per runner above): shuts the runner down; may change the runner's own state"""
+    params = dict(self=BaseR)
+    has_events = True
+    announce = True
+
+    def writes(c, self):
+        return close_frame(c)
+
+    raises = {"BaseException": lambda c, self, exc: True}
+
+
+@contract(RUN + "base_runner:BaseRunner.stop", props=["C02", "C12"])
+class base_stop:
+    """stop(): a no-op for a runner that is already stopped; otherwise aclose() runs ON THE SHARED LOOP and stop blocks until it
+    finished (requires: the caller is not the loop thread)"""
+    params = dict(self=BaseR)
+    has_events = True
+    announce = True
+
+    def writes(c, self):
+        return close_frame(c)
+
+    def ensures(c, self):
+        stopped = flag(c.old(self._stopped), "isset")
+        return {"no-op-when-stopped": c.Implies(stopped, c.no_events()),
+                "otherwise-closes-on-the-shared-loop": c.Implies(c.Not(stopped), c.And(
+                    c.event_at(0) == c.event("run_coroutine_threadsafe", self.asyncio_loop, RUN + "base_runner:BaseRunner.aclose", self),
+                    c.event_at(1) == c.event("on-loop-thread", self.asyncio_loop),
+                    c.event_at(2) == c.event("call", RUN + "base_runner:BaseRunner.aclose", self)))}
+
+    raises = {"BaseException": lambda c, self, exc: c.Not(flag(c.old(self._stopped), "isset"))}
+
+
+@contract(RUN + "meta_runner:MetaRunner.stop#body", props=["C02", "C12"], body_key=RUN + "meta_runner:MetaRunner.stop")
+class meta_stop:
+    """stop(): every runner of the runtime is stopped, one after the other"""
+    params = dict(self=MetaR)
+    has_events = True
+
+    def requires(c, self):
+        return self._runners.wf()
+
+    def writes(c, self):
+        return close_frame(c)
+
+    raises = {"BaseException": lambda c, self, exc: True}
+    loops = {
+        0: Loop(
+            inv=lambda c, L, i: {"same-runners": c.unchanged(L.self, "_runners")},
+            modifies=lambda c, L: [("trace",)] + close_frame(c),
+            local_types={"runner": BaseR},
+            step=lambda c, L, L0: {"each-runner-is-stopped-once": c.event_at(0) == c.event("call", RUN + "base_runner:BaseRunner.stop", L.runner)},
+        )
+    }
+
+
+@contract(RUN + "meta_runner:MetaRunner._aclose_runners#body", props=["C02"], body_key=RUN + "meta_runner:MetaRunner._aclose_runners")
+class aclose_runners:
+    """EVERY runner is closed (not only the failed one), THEN all runner tasks are awaited until they are done
+    (return_exceptions: their failures do not cut the wait short), and only then the runner map is emptied"""
+    params = dict(self=MetaR, runner_tasks=TaskList)
+    has_events = True
+
+    def requires(c, self, runner_tasks):
+        return self._runners.wf()
+
+    def writes(c, self, runner_tasks):
+        return close_frame(c) + [(self._runners, "$mhas"), (self._runners, "$len")]
+
+    def ensures(c, self, runner_tasks):
+        n = c.n_events()
+        return {"all-runner-tasks-awaited-after-closing-then-the-map-is-emptied": c.And(
+            c.event_at(n - 1) == c.event("gather", True), self._runners.keys.len == 0)}
+
+    raises = {"BaseException": lambda c, self, exc: True}
+    loops = {
+        0: Loop(
+            inv=lambda c, L, i: {"same-runners": c.unchanged(L.self, "_runners")},
+            modifies=lambda c, L: [("trace",)] + close_frame(c),
+            local_types={"runner": BaseR},
+            step=lambda c, L, L0: {"each-runner-is-closed": c.event_at(0) == c.event("call", RUN + "base_runner:BaseRunner.aclose", L.runner)},
+        )
+    }
+
+
+# ================================================================================ wiring facts decided on the AST (C02 f, C11)
+@contract("static:runner-wiring", props=["C02", "C11"], kind="static")
+class runner_wiring:
+    """decided on the AST of src/cobald/daemon/runners/*.py: no thread is ever joined; the only event loops ever created are the
+    one asyncio.run in MetaRunner.run and the one trio.run in TrioRunner._run_trio_blocking (so execute()/adopt() can only
+    re-enter those loops, never spin up a private one)"""
+
+    def static(E):
+        import ast
+        calls = {}
+        joins = []
+        for name, m in E.repo.modules.items():
+            if not name.startswith("cobald.daemon.runners"):
+                continue
+            for fn in ast.walk(m.tree):
+                if not isinstance(fn, (ast.FunctionDef, ast.AsyncFunctionDef)):
+                    continue
+                for node in ast.walk(fn):
+                    if isinstance(node, ast.Call):
+                        src = ast.unparse(node.func)
+                        if src in ("trio.run", "asyncio.run", "asyncio.new_event_loop", "trio.lowlevel.start_guest_run") or src.endswith(".run_until_complete") or src.endswith(".run_forever"):
+                            calls.setdefault(src, []).append("%s:%s" % (name.split(".")[-1], fn.name))
+                        if isinstance(node.func, ast.Attribute) and node.func.attr == "join" and not isinstance(node.func.value, ast.Constant):
+                            joins.append("%s:%s" % (name.split(".")[-1], fn.name))
+        return {
+            "no-thread-is-joined-anywhere-in-the-runners": not joins,
+            "exactly-one-trio.run-in-_run_trio_blocking": calls.get("trio.run") == ["trio_runner:_run_trio_blocking"],
+            "exactly-one-asyncio.run-in-MetaRunner.run": calls.get("asyncio.run") == ["meta_runner:run"],
+            "no-other-event-loop-is-created-or-driven": set(calls) <= {"trio.run", "asyncio.run"},
+        }
